@@ -16,7 +16,7 @@ import json
 import os
 
 import vlib
-from checks.c12 import (PRECEDENCE, Tally, attributed_sigs, run_counterfactuals, bag, case_queries, case_sql, corpus_lines, field, finish_reports,
+from checks.c12 import (PRECEDENCE, Tally, attributed_sigs, run_counterfactuals, model_search, impl_search, bag, case_queries, case_sql, corpus_lines, field, finish_reports,
                         judge_scan, model_rows, out_rows, parse_sexp, run_cases, vkey)
 
 THEOREMS = [
@@ -249,7 +249,7 @@ def judge_query13(r, T, qid, g, nrs):
 
 
 def run(ck):
-    n = 420 if ck.quick() else 4000
+    n = 380 if ck.quick() else 4000
     bad = vlib.step_lean(ck, "RlModel.Thm.C13", THEOREMS, extra_targets=["drv_c13"])
     ok, log = vlib.step_cargo(ck, ["c13"])
     if not ok:
@@ -269,6 +269,10 @@ def run(ck):
     res = run_cases(ck, "c13", "drv_c13", allc, "all")
     for r in res:
         judge_case13(r, T)
+    search = model_search(ck, T, "c13", "c13", "drv_c13", judge_case13)
+    if bad or T.corr:
+        search["implementation_sample"] = impl_search(ck, T, "c13", "c13", "drv_c13", judge_case13)
+    cfs = run_counterfactuals(ck, T, "c13", "drv_c13", judge_case13)
     unexplained = [f for f in T.findings if f[0].startswith("unexplained")]
     for name, st in bad.items():
         if unexplained:
@@ -276,10 +280,9 @@ def run(ck):
             ck.report("thm:" + name, "theorem %s no longer checks (%s); failing input: %s" % (name, st.get("status"), what), replay=rep, found_input=True)
         else:
             ck.report("thm:" + name, "theorem %s no longer checks: %s" % (name, st), replay={"theorem": name, "status": st}, found_input=False)
-    cfs = run_counterfactuals(ck, T, "c13", "drv_c13", judge_case13)
     finish_reports(ck, T, "c13")
     ck.coverage.update({
-        "counterfactuals": cfs,
+        "counterfactuals": cfs, "small_domain_search": search,
         "evaluations": T.mvi["compared"], "distinct_nontrivial": len(T.nontrivial),
         "rule": "distinct (case, SQL text) whose key range was pushed into the scan and whose result is non-empty and equals the oracle, plus distinct non-empty correct storage-level range scans",
         "samples": T.samples[:8], "model_vs_impl": T.mvi, "impl_vs_oracle": T.ivo, "model_vs_oracle": T.mvo,
